@@ -72,7 +72,10 @@ impl Prop for C17 {
             let params: Vec<Param> = (0..stmts[s].1)
                 .map(|i| {
                     if pending[s][i] {
-                        Param { coltype: *g.pick(&[T_BLOB, T_VAR_STRING, T_LONG_BLOB, T_STRING]), unsigned: false, value: PVal::LongData }
+                        // (rarely the client also sets the NULL bit for a streamed parameter: what that
+                        // parameter becomes is not asserted, the others still are)
+                        let value = if g.chance(1, 12) { PVal::Null } else { PVal::LongData };
+                        Param { coltype: *g.pick(&[T_BLOB, T_VAR_STRING, T_LONG_BLOB, T_STRING]), unsigned: false, value }
                     } else {
                         gen_param(g)
                     }
@@ -81,7 +84,7 @@ impl Prop for C17 {
             for x in pending[s].iter_mut() {
                 *x = false;
             }
-            ops.push(Op::Exec { stmt: s, params, rebind: true });
+            ops.push(Op::Exec { stmt: s, params, rebind: true, take: None });
         }
         Case { stmts, ops }
     }
@@ -104,12 +107,14 @@ impl Prop for C17 {
                         stmt: 0,
                         params: vec![Param { coltype: T_LONG, unsigned: false, value: PVal::Int(0x01020304) }, Param { coltype: T_BLOB, unsigned: false, value: PVal::LongData }],
                         rebind: true,
+                        take: None,
                     },
-                    Op::Exec { stmt: 1, params: vec![Param { coltype: T_BLOB, unsigned: false, value: PVal::LongData }], rebind: true },
+                    Op::Exec { stmt: 1, params: vec![Param { coltype: T_BLOB, unsigned: false, value: PVal::LongData }], rebind: true, take: None },
                     Op::Exec {
                         stmt: 0,
                         params: vec![Param { coltype: T_LONG, unsigned: false, value: PVal::Int(5) }, Param { coltype: T_BLOB, unsigned: false, value: PVal::Bytes(b"inline".to_vec()) }],
                         rebind: true,
+                        take: None,
                     },
                 ],
             });
